@@ -24,6 +24,7 @@ HARNESS = os.path.join(ROOT, "harness")
 EVIDENCE = os.environ.get("VERIF_EVIDENCE", os.path.join(ROOT, "evidence"))
 REPLAYS = os.path.join(EVIDENCE, "replays")
 BIN = os.path.join(HARNESS, "target", "release")
+BIN_PLAIN = os.path.join(HARNESS, "target", "plain")      # profile without debug assertions / overflow checks
 JAR = "/opt/veriftools/tla/tla2tools.jar"
 DEPS = "/opt/veriftools/tla/CommunityModules-deps.jar"
 
@@ -104,6 +105,11 @@ def ensure_build():
     if r.returncode != 0:
         tail = open(out).read()[-4000:]
         raise ToolError("cargo build of the harness against %s failed:\n%s" % (REPO, tail))
+    with open(out, "a") as fh:
+        r = sh(["cargo", "build", "--profile", "plain", "--offline", "--bin", "replay"], cwd=HARNESS, env=env, stdout=fh,
+               stderr=subprocess.STDOUT, timeout=1800)
+    if r.returncode != 0:
+        raise ToolError("cargo build (profile plain) of the harness against %s failed:\n%s" % (REPO, open(out).read()[-4000:]))
     # the build may have regenerated stale automata caches: fingerprint what is there *now*
     os.makedirs(os.path.dirname(stamp), exist_ok=True)
     with open(stamp, "w") as fh:
@@ -271,7 +277,7 @@ class ReplayResult:
         self.crashed = None
 
 
-def run_replay(cases_path, name="replay", jobs=1, timeout=3600):
+def run_replay(cases_path, name="replay", jobs=1, timeout=3600, plain=False):
     """Execute the cases against the real code (harness binary `replay`).  A crash that is
     not a Rust panic (abort, segfault) is attributed to the in-flight case through the
     progress file, and the run resumes with the next case."""
@@ -291,7 +297,7 @@ def run_replay(cases_path, name="replay", jobs=1, timeout=3600):
         rounds += 1
         res_path = os.path.join(wdir, "results-%d.jsonl" % rounds)
         prog = os.path.join(wdir, "progress")
-        r = sh([os.path.join(BIN, "replay"), cases_path, res_path, prog, str(start)], stdout=subprocess.PIPE,
+        r = sh([os.path.join(BIN_PLAIN if plain else BIN, "replay"), cases_path, res_path, prog, str(start)], stdout=subprocess.PIPE,
                stderr=subprocess.PIPE, timeout=timeout)
         if r.returncode == 2:
             raise ToolError("harness error: " + r.stderr.decode(errors="replace")[-2000:])
